@@ -728,6 +728,20 @@ def _target(target):
     return clone_ast(target)
 
 
+def _assign_to(target, value: ast.AST) -> ast.stmt:
+    """`target = value`; for a tuple target the positions that assign a name to
+    itself (`pos` in `index, pos = new_index, pos`) are dropped"""
+    if isinstance(target, ast.Tuple) and isinstance(value, ast.Tuple) and len(target.elts) == len(value.elts):
+        keep = [(t, v) for t, v in zip(target.elts, value.elts) if not (isinstance(t, ast.Name) and isinstance(v, ast.Name) and t.id == v.id)]
+        if not keep:
+            return ast.Pass()
+        if len(keep) == 1:
+            return ast.Assign(targets=[clone_ast(keep[0][0])], value=keep[0][1])
+        if len(keep) < len(target.elts):
+            return ast.Assign(targets=[ast.Tuple(elts=[clone_ast(t) for t, _ in keep], ctx=ast.Store())], value=ast.Tuple(elts=[v for _, v in keep], ctx=ast.Load()))
+    return ast.Assign(targets=[_target(target)], value=value)
+
+
 def _single_exit(stmts: List[ast.stmt], target) -> Optional[List[ast.stmt]]:
     """rewrite a block whose returns sit in if/else structure only so that it
     assigns `target` (when given) instead of returning"""
@@ -736,7 +750,7 @@ def _single_exit(stmts: List[ast.stmt], target) -> Optional[List[ast.stmt]]:
         rest = stmts[i + 1:]
         if isinstance(s, ast.Return):
             if target is not None:
-                out.append(ast.Assign(targets=[_target(target)], value=s.value if s.value is not None else ast.Constant(value=None)))
+                out.append(_assign_to(target, s.value if s.value is not None else ast.Constant(value=None)))
             elif s.value is not None and not isinstance(s.value, (ast.Constant, ast.Name)):
                 out.append(ast.Expr(value=s.value))
             if not out:
@@ -931,6 +945,8 @@ class LoopUnroller(ast.NodeTransformer):
                 stores[n.id] = stores.get(n.id, 0) + 1
             if isinstance(n, ast.Assign) and len(n.targets) == 1 and isinstance(n.targets[0], ast.Name) and isinstance(n.value, (ast.Tuple, ast.List)):
                 vals[n.targets[0].id] = n.value
+            if isinstance(n, ast.Assign) and len(n.targets) == 1 and isinstance(n.targets[0], ast.Name) and isinstance(n.value, ast.Call) and isinstance(n.value.func, ast.Name) and n.value.func.id == "range" and not n.value.keywords and all(_range_arg(a_) for a_ in n.value.args):
+                vals[n.targets[0].id] = n.value
             if isinstance(n, ast.Attribute) and isinstance(n.value, ast.Name) and n.attr in ("append", "extend", "insert", "remove", "pop", "sort", "reverse", "clear"):
                 touched.add(n.value.id)
             if isinstance(n, (ast.AugAssign,)) and isinstance(n.target, ast.Name):
@@ -939,7 +955,11 @@ class LoopUnroller(ast.NodeTransformer):
                 touched.add(n.value.id)
         params = {a.arg for a in node.args.posonlyargs + node.args.args + node.args.kwonlyargs}
         self.tables.append({k: v for k, v in vals.items() if stores.get(k) == 1 and k not in touched and k not in params})
+        if not hasattr(self, "_fn"):
+            self._fn = []
+        self._fn.append(node)
         self.generic_visit(node)
+        self._fn.pop()
         self.tables.pop()
         return node
 
@@ -951,6 +971,14 @@ class LoopUnroller(ast.NodeTransformer):
         it = node.iter
         if isinstance(it, ast.Name) and self.tables and it.id in self.tables[-1]:
             it = self.tables[-1][it.id]
+            if isinstance(it, ast.Call):
+                # `rounds = range(1, degree)` ... `for d in rounds`: the loop is read with its range
+                loads = sum(1 for n in _own_walk(self._fn[-1]) if isinstance(n, ast.Name) and n.id == node.iter.id and isinstance(n.ctx, ast.Load)) if getattr(self, "_fn", None) else 2
+                stable = not any(isinstance(n, ast.Name) and isinstance(n.ctx, (ast.Store, ast.Del)) and n.id in {x.id for x in ast.walk(it) if isinstance(x, ast.Name)} for n in _own_walk(self._fn[-1])) if getattr(self, "_fn", None) else False
+                if loads == 1 and stable:
+                    node.iter = clone_ast(it)
+                    self.count += 1
+                return node
         if not isinstance(it, (ast.Tuple, ast.List)) or not (1 <= len(it.elts) <= self.MAX_ITEMS) or node.orelse:
             return node
         if any(isinstance(e, ast.Starred) for e in it.elts) or not all(_pure_simple(e) for e in it.elts):
@@ -982,6 +1010,17 @@ class LoopUnroller(ast.NodeTransformer):
             out.extend(body)
         self.count += 1
         return out or [ast.Pass()]
+
+
+def _range_arg(a: ast.AST) -> bool:
+    """bounds made of parameters, constants and arithmetic (no call, no attribute chain that may change)"""
+    if isinstance(a, (ast.Name, ast.Constant)):
+        return True
+    if isinstance(a, ast.BinOp):
+        return _range_arg(a.left) and _range_arg(a.right)
+    if isinstance(a, ast.UnaryOp):
+        return _range_arg(a.operand)
+    return False
 
 
 def _bind_literal(t: ast.AST, v: ast.AST, m: Dict[str, ast.AST]) -> bool:
